@@ -36,5 +36,11 @@ CHECKS = {
   "text": "Result.update and Result.merge are symbolically executed from arbitrary (havocked) states of all four result types with and without value accumulation: update adds exactly one observation to the view, merge adds the views and leaves the operand untouched, update equals merging a singleton, merge is associative with the empty result as unit - hence every chunking and association yields the same value/total/count/mean/variance (MISC: last observation wins). All chunkings of sequences of length <=4 are additionally executed directly with symbolic observations. merge_all_results is proved per name with the operands never changed by later merges or updates. combine_simulation_results/parameters over overlapping grids is a bounded native check.",
   "note": "Ideal reals for float statistics; lemma L-FOLD (monoid homomorphism => chunking independence) is the textbook induction over the discharged laws, not machine-checked; combine_* only bounded.",
  },
+ "C08": {
+  "category": "proof",
+  "technique": "contract-based deductive verification: ghost state (raw matrix, antenna split, current path loss), all mutator histories up to length 3 plus an inductive cache-coherence step, symbolic matrix entries through the real numpy slicing; transmission equation; bounded native random histories",
+  "text": "On the real plain and external-interference classes, with every matrix entry, path-loss value, noise draw, filter entry and data symbol symbolic: after each step of every mutator sequence of length <=3 all views (H, big_H, get_Hkl, get_Hk, big_H_no_ext_int) equal sqrt(current path loss) x raw for the current antenna split, entry by entry; from any state whose caches are empty or coherent every mutator re-establishes coherence (inductive, any history length); corrupt_data equals W^H(big_H x + n) with n the reported last noise, split by antenna counts, for noise on/off x filter on/off. Structure is configuration-concrete (K=2, unequal splits incl. equal totals).",
+  "note": "K and antenna splits fixed per configuration (values fully symbolic); ideal reals, sqrt uninterpreted; random draws uninterpreted; larger K and random interleavings only in the bounded native check.",
+ },
 }
 NOT_APPLICABLE = {}
